@@ -27,6 +27,7 @@ def cpython_eval(h, pfx="", check_attrs=True):
   ns = {}
   out = []
   objs = []
+  all_attrs = sorted({j for c in h["classes"] for j in c["attrs"]})
   for i, c in enumerate(h["classes"]):
     if any(b != "o" and out[b]["status"] != "ok" for b in c["bases"]):
       out.append({"status": "skipped"})
@@ -47,7 +48,7 @@ def cpython_eval(h, pfx="", check_attrs=True):
     owners = {}
     if check_attrs:
       inst = k()
-      for j in range(H.NATTR):
+      for j in all_attrs:
         try:
           v = getattr(k, f"a{j}")
         except AttributeError:
